@@ -367,6 +367,12 @@ fn determine_index(list: &List, index: f64) -> Result<usize, String> {
   }
 }
 
+/// Verification hook: the private index normalisation of list natives
+#[cfg(feature = "verif")]
+pub fn verif_list_determine_index(list: &List, index: f64) -> Result<usize, String> {
+  determine_index(list, index)
+}
+
 native_with_error!(ListIndexGet, LIST_INDEX_GET);
 
 impl LyNative for ListIndexGet {
